@@ -26,7 +26,7 @@ for f in ${GOFLAGS:-}; do
 done
 STD=strings,bytes,regexp,regexp/syntax,strconv,fmt,sort,slices,unicode,unicode/utf8,bufio,encoding/json
 go build -cover -covermode=atomic "${MODFLAGS[@]}" \
-  -coverpkg=verif/cmd/c20,verif/checks/c20/calib,github.com/ajitpratap0/GoSQLX/pkg/...,$STD \
+  -coverpkg=verif/cmd/c20,verif/checks/c20/calib,github.com/ajitpratap0/GoSQLX/pkg/...,github.com/ajitpratap0/GoSQLX/cmd/gosqlx/cmd,$STD \
   -o .work/bin/c20.real.new ./cmd/c20 2> .work/build-c20.warn || { cat .work/build-c20.warn >&2; exit 1; }
 grep -v '^warning: no packages being built depend on matches' .work/build-c20.warn >&2 || true
 mv -f .work/bin/c20.real.new .work/bin/c20.real
